@@ -59,9 +59,16 @@ struct Built {
 }
 
 fn on_track(ibs: usize, tb: TrackBuilder, looped: bool) -> Built {
+	on_track_n(ibs, tb, looped, 23)
+}
+/// a short burst followed by digital silence: the effect rings out on all-zero input
+fn on_track_burst(ibs: usize, tb: TrackBuilder) -> Built {
+	on_track_n(ibs, tb, false, 2)
+}
+fn on_track_n(ibs: usize, tb: TrackBuilder, looped: bool, n: usize) -> Built {
 	let mut m = rig::manager(SR, ibs, rig::caps(4), MainTrackBuilder::new());
 	let mut t = m.add_sub_track(tb).unwrap();
-	let d = if looped { noise_sound(23).loop_region(Region::from(..)) } else { noise_sound(23) };
+	let d = if looped { noise_sound(n).loop_region(Region::from(..)) } else { noise_sound(n) };
 	let s = t.play(d).unwrap();
 	Built {
 		m,
@@ -97,6 +104,16 @@ fn scenes() -> Vec<Scene> {
 				exact: $exact,
 				long_only: $long,
 				build: |ibs| on_track(ibs, TrackBuilder::new().with_effect($b), true),
+			}
+		};
+	}
+	macro_rules! fxb {
+		($name:expr, $b:expr) => {
+			Scene {
+				name: $name,
+				exact: false,
+				long_only: false,
+				build: |ibs| on_track_burst(ibs, TrackBuilder::new().with_effect($b)),
 			}
 		};
 	}
@@ -223,6 +240,17 @@ fn scenes() -> Vec<Scene> {
 				.feedback(-2.0)
 				.with_feedback_effect(DelayBuilder::new().delay_time(Duration::from_micros(500)))
 		),
+		fxb!("2-frame burst then silence into a resonant low-pass (ring-out)", FilterBuilder::new().cutoff(300.0).resonance(0.9)),
+		fxb!("2-frame burst then silence into an eq bell +12 dB", EqFilterBuilder::new(EqFilterKind::Bell, 500.0, 12.0, 4.0)),
+		fxb!(
+			"2-frame burst then silence into a 3-frame delay with a low-pass in the feedback loop",
+			DelayBuilder::new().delay_time(Duration::from_micros(375)).feedback(-2.0).with_feedback_effect(FilterBuilder::new().cutoff(400.0).resonance(0.5))
+		),
+		fxb!(
+			"2-frame burst then silence into a 20-frame delay with a low-pass in the feedback loop",
+			DelayBuilder::new().delay_time(Duration::from_micros(2500)).feedback(-2.0).with_feedback_effect(FilterBuilder::new().cutoff(400.0).resonance(0.5))
+		),
+		fxb!("2-frame burst then silence into a compressor (release on silence)", CompressorBuilder::new().threshold(-40.0).ratio(8.0).attack_duration(Duration::from_micros(200)).release_duration(Duration::from_millis(1))),
 		fx!("reverb", false, true, ReverbBuilder::new().feedback(0.8).damping(0.3).stereo_width(0.5)),
 		fx!("compressor", false, false, CompressorBuilder::new().threshold(-30.0).ratio(4.0).attack_duration(Duration::from_micros(500)).release_duration(Duration::from_millis(2))),
 		fx!("distortion soft clip +12 dB", true, false, DistortionBuilder::new().kind(DistortionKind::SoftClip).drive(12.0)),
